@@ -88,7 +88,7 @@ def oracle(ctx, p, o, i):
                 continue
             from fractions import Fraction
             c = Fraction(op[2:])
-            env = Env(var=lambda k, fm, c=c: str(c) if k == "var_count" else "?", count=lambda k, c=c: c, cat=lambda r, cc, f=f: f)
+            env = Env(vars={"var_count": str(c)}, var_default=("?", ""), var_fmt=False, count_default=c, cat_default=f)
             got = pv_eval(env, v)
             chosen = f if f in forms else "other"
             exp = f"{chosen.upper()}-{l} {c}"
